@@ -375,4 +375,31 @@ theorem sysvWalk_bounds : ∀ (ps : List PTy) (s : SysV), allWf ps = true → s.
     simp only [sysvWalk]
     exact sysvWalk_bounds ps _ hwf.2 h1 h2
 
+/-! ### result registers -/
+
+theorem retStep_of_spec (c : RetCnt) (t : RTy) (r : RetLoc × RetCnt) (h : retSpecStep c t = some r) :
+    retGenStep c t = some r ∧ retShimStep c t = some r := by
+  cases t <;> simp only [retSpecStep] at h <;> split at h
+  all_goals first
+    | (rename_i h0; simp [retGenStep, retShimStep, h0] at h ⊢; exact h)
+    | (split at h
+       · rename_i h0 h1; simp [retGenStep, retShimStep, h1] at h ⊢; exact h
+       · exact absurd h (by simp))
+
+theorem retWalk_of_spec : ∀ (rs : List RTy) (c : RetCnt) (locs : List RetLoc),
+    retWalk retSpecStep c rs = some locs →
+    retWalk retGenStep c rs = some locs ∧ retWalk retShimStep c rs = some locs
+  | [], _, _, h => by simpa [retWalk] using h
+  | t :: ts, c, locs, h => by
+    simp only [retWalk] at h
+    cases hs : retSpecStep c t with
+    | none => simp [hs] at h
+    | some r =>
+      obtain ⟨l, c'⟩ := r
+      simp only [hs, Option.map_eq_some_iff] at h
+      obtain ⟨rest, hr, hl⟩ := h
+      obtain ⟨hg, hsh⟩ := retStep_of_spec c t (l, c') hs
+      obtain ⟨ig, ish⟩ := retWalk_of_spec ts c' rest hr
+      simp [retWalk, hg, hsh, ig, ish, hl]
+
 end MirVerif.AbiCallee
